@@ -45,6 +45,15 @@ CHECKS = {
  "C15": ("property-based testing in child processes with guard-page-backed haystacks (fault injection by memory protection); post-conditions on every match",
          "Exploration: haystacks are placed flush against PROT_NONE pages on either side in 16 child processes; any access outside the slice kills the child and the breadcrumb case becomes the replay; panics are caught; matches must satisfy start <= end <= len, pattern < patterns_len, inside span.",
          "Trusted: the kernel's page protection; does not see over-reads of pattern storage (ASan fuzzing in the thorough tier does).", "DESIGN.md §4 C15"),
+ "C07": ("model-based property testing over generated read schedules (incl. cuts derived from the expected matches) and hook-controlled buffer capacities",
+         "Exploration over schedules: stream_find_iter under generated chunkings and buffer capacities longest+1.. (hook) must equal the model iterator on the concatenation and the in-memory iterator; roll/refill is exercised on short streams (measured by the roll counter).",
+         "Trusted: reference model; the capacity hook changes nothing but Buffer::new's capacity.", "DESIGN.md §4 C07"),
+ "C08": ("model-based property testing of stream replacement (table and closure variants) over generated schedules, capacities and partial writers",
+         "Exploration: bytes written == model replace_all on the concatenation == in-memory replace_all_bytes; the closure sees exactly the model's matches and bytes.",
+         "Trusted: reference model; capacity hook.", "DESIGN.md §4 C08"),
+ "C18": ("fault injection enumerated exhaustively per generated case (every read call, every write call, every accepted-byte count, every closure call) with prefix-consistency oracle",
+         "Fault enumeration: for each generated (stream, schedule, capacity, table) every fault position is injected after a fault-free reference run; the injected error must surface, nothing may panic, matches and written bytes must be prefixes of the fault-free run.",
+         "Trusted: fault granularity = call / byte; exhaustive over fault positions per case, sampled over cases.", "DESIGN.md §4 C18"),
 }
 
 NOT_YET = {}
@@ -64,7 +73,7 @@ def main():
                 "evidence_file": "/verif/evidence/%s.json" % pid,
                 "replay_cmd_template": "./check %s --replay {path}" % pid,
                 "engine": "acverif",
-                "level_claimed": {"category": "exploration", "text": text, "design_ref": ref},
+                "level_claimed": {"category": "fault_enumeration" if pid == "C18" else "exploration", "text": text, "design_ref": ref},
                 "level_note": note,
                 "technique": tech,
             })
